@@ -78,7 +78,7 @@ func genC07(r *sim.Rand, tier string) *sim.Case {
 		c.Cfg["reader"] = int64(r.Intn(2))
 	}
 	c.Cfg["tasks"] = int64(ntasks)
-	c.Cfg["arena"] = r.Pick64(1<<20, 2<<20)
+	c.Cfg["arena"] = r.Pick64(1<<20, 1<<20, 1<<20, 1<<20, 1<<20, 1<<20, 1<<20, 2<<20)
 	// a small pool of user keys so that versions pile up on the same key
 	npool := r.Pick(1, 2, 3, 5, 8, 12)
 	pool := make([][]byte, npool)
